@@ -191,6 +191,10 @@ def check(case, ctx) -> Result:
             res.violations.append(Viol("run_not_reproducible", f"program {p}, round {n_round + 1} inside one GlobalContext whose state is copied back after every run (earlier rounds: {[r_['p'] for r_ in resp['shared_runs'][:n_round]]}): {what} differs from the run in a fresh process{detail}",
                                        {"what": what, "shared_context": True, "sparse": bool(case["progs"][p].get("sparse_record"))}))
             break
+        if "recorded_ctx" in run and canon(run["recorded_ctx"]) != ref[p][1] and not res.violations:
+            res.violations.append(Viol("run_not_reproducible", f"program {p}, round {n_round + 1} inside one GlobalContext: the recorded buffer as it reads from the context's state after the copy-back ({str(run['recorded_ctx'])[:300]}) differs from the buffer of the run in a fresh process ({str(ref[p][1])[:300]})",
+                                       {"what": "recorded buffer after copy-back", "shared_context": True}))
+            break
     if case.get("shared"):
         res.labels.append("shared_context_stage")
         if any(case["progs"][p].get("sparse_record") for p in case["shared"]):
